@@ -67,21 +67,25 @@ def confirm(seed, demo_dest):
     return 0 if res.get("confirmed") else 1
 
 
-def run(seed, props, tier):
+def run(seed, props, tier, wt=None):
+    """wt: a clean worktree of /repo HEAD to apply the patch to (the checks then run with VERIF_REPO=wt
+    and VERIF_OUT redirected, so /repo and the committed evidence stay untouched); default: /repo itself."""
     seed = Path(seed).resolve()
-    rc, out = sh(f"git -C {REPO} status --porcelain --untracked-files=no")
+    target = Path(wt) if wt else REPO
+    rc, out = sh(f"git -C {target} status --porcelain --untracked-files=no")
     if out.strip():
-        print("refusing: /repo has uncommitted changes")
+        print(f"refusing: {target} has uncommitted changes")
         return 2
-    rc, out = sh(f"git -C {REPO} apply {seed / 'patch.diff'}")
+    rc, out = sh(f"git -C {target} apply {seed / 'patch.diff'}")
     if rc != 0:
         print("patch does not apply:", out)
         return 2
-    det = {"seed": seed.name, "tier": tier, "checks": {}}
+    env = {"VERIF_REPO": str(target), "VERIF_OUT": "/var/tmp/seed_out"} if wt else None
+    det = {"seed": seed.name, "tier": tier, "checks": {}, "target": str(target)}
     try:
         for p in props:
             t0 = time.time()
-            rc, out = sh(f"python3 tools/check.py {p} --tier {tier}", cwd=VERIF, timeout=7200)
+            rc, out = sh(f"python3 tools/check.py {p} --tier {tier}", cwd=VERIF, timeout=7200, env=env)
             viol = [l for l in out.split("\n") if l.startswith("VIOLATION")]
             und = [l for l in out.split("\n") if l.startswith("UNDECIDED")]
             obs = []
@@ -94,7 +98,7 @@ def run(seed, props, tier):
             det["checks"][p] = {"exit": rc, "violations": viol, "undecided": und[:5], "failed_obligations": obs, "wall_s": round(time.time() - t0, 1)}
             print(p, "exit", rc, viol, und[:2])
     finally:
-        sh(f"git -C {REPO} checkout -- .")
+        sh(f"git -C {target} checkout -- .")
     det["detected_by"] = [p for p, c in det["checks"].items() if c["exit"] == 1]
     (seed / "detect.json").write_text(json.dumps(det, indent=1) + "\n")
     return 0
@@ -107,5 +111,6 @@ if __name__ == "__main__":
     ap.add_argument("props", nargs="*")
     ap.add_argument("--tier", default="quick")
     ap.add_argument("--demo-dest", default="tests/demo.rs")
+    ap.add_argument("--worktree", default=None)
     a = ap.parse_args()
-    sys.exit(confirm(a.seed, a.demo_dest) if a.cmd == "confirm" else run(a.seed, a.props, a.tier))
+    sys.exit(confirm(a.seed, a.demo_dest) if a.cmd == "confirm" else run(a.seed, a.props, a.tier, a.worktree))
